@@ -201,6 +201,11 @@ pub open spec fn refresh_ok(w: Whirlpool, p: Position, tl: Tick, tu: Tick, lv: b
             &&& final(position).view().whirlpool == p0.whirlpool
             &&& final(whirlpool).liquidity_v() == u.whirlpool_liquidity && final(whirlpool).reward_ts_v() == reward_last_updated_timestamp
             &&& final(whirlpool).sqrt_price_v() == old(whirlpool).sqrt_price_v() && final(whirlpool).tick_current_index_v() == old(whirlpool).tick_current_index_v()
+            &&& final(whirlpool).tick_spacing_v() == old(whirlpool).tick_spacing_v()
+            &&& (forall|k: int| 0 <= k < 3 ==> #[trigger] final(whirlpool).reward_info_v(k) == (WhirlpoolRewardInfo { growth_global_x64: u.next_reward_growth_global[k], ..old(whirlpool).reward_info_v(k) }))
+            &&& final(whirlpool).token_vault_a_v() == old(whirlpool).token_vault_a_v() && final(whirlpool).token_vault_b_v() == old(whirlpool).token_vault_b_v()
+            &&& final(whirlpool).token_mint_a_v() == old(whirlpool).token_mint_a_v() && final(whirlpool).token_mint_b_v() == old(whirlpool).token_mint_b_v()
+            &&& final(position).view().position_mint == p0.position_mint
             &&& (final(tick_array_lower).tick_at(p0.tick_lower_index as int, sp) matches Some(t) && tick_is(t, u.tick_lower_update.view()))
             &&& (match tick_array_upper { Some(up) => final(up).tick_at(p0.tick_upper_index as int, sp) matches Some(t) && tick_is(t, u.tick_upper_update.view()),
                     None => final(tick_array_lower).tick_at(p0.tick_upper_index as int, sp) matches Some(t) && tick_is(t, u.tick_upper_update.view()) })
